@@ -41,7 +41,7 @@ CHECKS["C15"] = dict(engine="libsim", level="exploration", design_ref="DESIGN.md
 
 CHECKS["C20"] = dict(engine="clisim", level="fault_enumeration", design_ref="DESIGN.md §3 C20",
    technique="deterministic simulation with crash injection: the real cmd/minify under an os facade (overlay) with a seeded worker scheduler; SIGKILL before every operation following a mutating FS operation and torn writes, one process per crash image; disk image judged by the property's disjunction",
-   text="For each generated scenario (in-place file/dir/bundle, separate output, sync, symlink and hard-link aliases, stdin; all file types, empty, library-rejected and >32KiB files; worker schedule on the tape) a fault-free run of the real command records the FS-operation trace; then the run is repeated on a rebuilt tree and killed (SIGKILL, no deferred code runs) at every boundary after a mutating operation, and every write is torn at three prefix lengths. Every surviving disk image must satisfy: original at the path, or original in <name>.bak, or complete new output; read-only inputs and bystanders untouched. Complete enumeration of crash points per explored scenario; scenarios are sampled.",
+   text="For each generated scenario (in-place file/dir/bundle, separate output, sync, symlink and hard-link aliases, stdin; all file types, empty, library-rejected and >32KiB files; worker schedule on the tape) a fault-free run of the real command records the FS-operation trace; then the run is repeated on a rebuilt tree and killed (SIGKILL, no deferred code runs) at every boundary after a mutating operation, and every write is torn at three prefix lengths; scenarios that rename are enumerated a second time with every write failing (ENOSPC), so that the kills also land inside the path that restores the .bak copy. Every surviving disk image must satisfy: original at the path, or original in <name>.bak, or complete new output; read-only inputs and bystanders untouched. Complete enumeration of crash points per explored scenario; scenarios are sampled.",
    note="Trusts: the os facade covers every FS access of cmd/minify (an AST scan refuses the build, exit 2, if the package reaches the disk around it; --watch is outside every property), the kernel FS of the scratch tmpfs, testing/synctest. Crash model = process kill, not power loss.")
 
 CHECKS["C19"] = dict(engine="clisim", level="exploration", design_ref="DESIGN.md §3 C19",
